@@ -174,6 +174,10 @@ def Lexer.bad (l : Lexer) : Nat := (l.items.toList.filter (fun it => !(itemOK it
     token: every token but a few is non-empty, and the empty ones stand behind enough input) -/
 def Lexer.cnt (l : Lexer) : Int := l.items.size
 
+/-- total length of the values of the items sent so far (the invariant `Good` bounds it by the start of
+    the pending token: the tokens are disjoint pieces of the input) -/
+def Lexer.tot (l : Lexer) : Int := ((l.items.toList.map (·.val.length)).sum : Nat)
+
 /-- the same count over all items but the last -/
 def Lexer.badInit (l : Lexer) : Nat :=
   (l.items.toList.dropLast.filter (fun it => !(itemOK it && sliceOK l.input it))).length
@@ -212,6 +216,9 @@ theorem emitOK_safe {t : ItemType} {n : Int} (h1 : sliced1 t = false) (h2 : slic
 @[simp] theorem backup_bad (l : Lexer) : l.backup.bad = l.bad := rfl
 @[simp] theorem ignore_bad (l : Lexer) : l.ignore.bad = l.bad := rfl
 @[simp] theorem addPos_bad (l : Lexer) (d : Int) : (l.addPos d).bad = l.bad := rfl
+@[simp] theorem backup_tot (l : Lexer) : l.backup.tot = l.tot := rfl
+@[simp] theorem ignore_tot (l : Lexer) : l.ignore.tot = l.tot := rfl
+@[simp] theorem addPos_tot (l : Lexer) (d : Int) : (l.addPos d).tot = l.tot := rfl
 @[simp] theorem backup_cnt (l : Lexer) : l.backup.cnt = l.cnt := rfl
 @[simp] theorem ignore_cnt (l : Lexer) : l.ignore.cnt = l.cnt := rfl
 @[simp] theorem addPos_cnt (l : Lexer) (d : Int) : (l.addPos d).cnt = l.cnt := rfl
@@ -260,18 +267,18 @@ def NextFacts (l : Lexer) (r : Int) (l' : Lexer) : Prop :=
     (128 ≤ r ∨ l'.width = 1))
 
 theorem next_sat {l : Lexer} {Q : Int × Lexer → Prop} (h0 : 0 ≤ l.pos)
-    (hq : ∀ r l', (l'.len = l.len ∧ l'.mp = l.mp ∧ l'.tagStart = l.tagStart ∧ (l'.bad = l.bad ∧ l'.cnt = l.cnt) ∧ l'.tagBad = l.tagBad ∧ l'.input = l.input) → l'.start = l.start → NextFacts l r l' → Q (r, l')) :
+    (hq : ∀ r l', (l'.len = l.len ∧ l'.mp = l.mp ∧ l'.tagStart = l.tagStart ∧ (l'.bad = l.bad ∧ l'.cnt = l.cnt ∧ l'.tot = l.tot) ∧ l'.tagBad = l.tagBad ∧ l'.input = l.input) → l'.start = l.start → NextFacts l r l' → Q (r, l')) :
     Sat l.next Q := by
   unfold Lexer.next
   split
-  · exact ⟨_, rfl, hq _ _ ⟨rfl, rfl, rfl, ⟨rfl, rfl⟩, rfl, rfl⟩ rfl (Or.inl ⟨by assumption, rfl, rfl, rfl⟩)⟩
+  · exact ⟨_, rfl, hq _ _ ⟨rfl, rfl, rfl, ⟨rfl, rfl, rfl⟩, rfl, rfl⟩ rfl (Or.inl ⟨by assumption, rfl, rfl, rfl⟩)⟩
   · rename_i h1
     rw [if_neg (by omega)]
     simp only [Lexer.len] at h1
     have hlt : l.pos.toNat < l.input.size := by omega
     have hw := decodeRune_width l.input l.pos.toNat hlt
     have ha := decodeRune_ascii l.input l.pos.toNat
-    refine ⟨_, rfl, hq _ _ ⟨rfl, rfl, rfl, ⟨rfl, rfl⟩, rfl, rfl⟩ rfl (Or.inr ⟨?_, ?_, ?_, ?_, ?_, ?_⟩)⟩
+    refine ⟨_, rfl, hq _ _ ⟨rfl, rfl, rfl, ⟨rfl, rfl, rfl⟩, rfl, rfl⟩ rfl (Or.inr ⟨?_, ?_, ?_, ?_, ?_, ?_⟩)⟩
     · simp only [Lexer.len]; omega
     · exact Int.natCast_nonneg _
     · show (1 : Int) ≤ ((decodeRune l.input l.pos.toNat).2 : Int); omega
@@ -297,10 +304,10 @@ theorem next_content {l l' : Lexer} {r : Int} (h : l.next = some (r, l')) (hr0 :
 
 /-- `next_sat` with the content of the rune read -/
 theorem next_sat_c {l : Lexer} {Q : Int × Lexer → Prop} (h0 : 0 ≤ l.pos)
-    (hq : ∀ r l', (l'.len = l.len ∧ l'.mp = l.mp ∧ l'.tagStart = l.tagStart ∧ (l'.bad = l.bad ∧ l'.cnt = l.cnt) ∧ l'.tagBad = l.tagBad ∧ l'.input = l.input) → l'.start = l.start → NextFacts l r l' →
+    (hq : ∀ r l', (l'.len = l.len ∧ l'.mp = l.mp ∧ l'.tagStart = l.tagStart ∧ (l'.bad = l.bad ∧ l'.cnt = l.cnt ∧ l'.tot = l.tot) ∧ l'.tagBad = l.tagBad ∧ l'.input = l.input) → l'.start = l.start → NextFacts l r l' →
       (0 ≤ r → r < 128 → (byteAt l.input l.pos.toNat : Int) = r) → Q (r, l')) :
     Sat l.next Q := by
-  obtain ⟨⟨r, l'⟩, hn, hl, hs, hf⟩ := next_sat (Q := fun x => (x.2.len = l.len ∧ x.2.mp = l.mp ∧ x.2.tagStart = l.tagStart ∧ (x.2.bad = l.bad ∧ x.2.cnt = l.cnt) ∧ x.2.tagBad = l.tagBad ∧ x.2.input = l.input) ∧ x.2.start = l.start ∧ NextFacts l x.1 x.2) h0
+  obtain ⟨⟨r, l'⟩, hn, hl, hs, hf⟩ := next_sat (Q := fun x => (x.2.len = l.len ∧ x.2.mp = l.mp ∧ x.2.tagStart = l.tagStart ∧ (x.2.bad = l.bad ∧ x.2.cnt = l.cnt ∧ x.2.tot = l.tot) ∧ x.2.tagBad = l.tagBad ∧ x.2.input = l.input) ∧ x.2.start = l.start ∧ NextFacts l x.1 x.2) h0
     (fun _ _ a b c => ⟨a, b, c⟩)
   exact ⟨_, hn, hq r l' hl hs hf (fun a b => next_content hn a b)⟩
 
@@ -309,7 +316,7 @@ theorem next_isSome {l : Lexer} (h0 : 0 ≤ l.pos) : ∃ r l', l.next = some (r,
   exact ⟨r, l', h⟩
 
 theorem peek_sat {l : Lexer} {Q : Int × Lexer → Prop} (h0 : 0 ≤ l.pos)
-    (hq : ∀ r l', (l'.len = l.len ∧ l'.mp = l.mp ∧ l'.tagStart = l.tagStart ∧ (l'.bad = l.bad ∧ l'.cnt = l.cnt) ∧ l'.tagBad = l.tagBad ∧ l'.input = l.input) → l'.start = l.start → l'.pos = l.pos →
+    (hq : ∀ r l', (l'.len = l.len ∧ l'.mp = l.mp ∧ l'.tagStart = l.tagStart ∧ (l'.bad = l.bad ∧ l'.cnt = l.cnt ∧ l'.tot = l.tot) ∧ l'.tagBad = l.tagBad ∧ l'.input = l.input) → l'.start = l.start → l'.pos = l.pos →
       ((l.len ≤ l.pos ∧ r = -1 ∧ l'.width = 0) ∨
        (l.pos < l.len ∧ 0 ≤ r ∧ 1 ≤ l'.width ∧ l.pos + l'.width ≤ l.len ∧ (128 ≤ r ∨ l'.width = 1))) →
       Q (r, l')) :
@@ -330,7 +337,7 @@ theorem peek_sat {l : Lexer} {Q : Int × Lexer → Prop} (h0 : 0 ≤ l.pos)
 
 theorem emit_sat {l : Lexer} {t : ItemType} {Q : Lexer → Prop}
     (h0 : 0 ≤ l.start) (h1 : l.start ≤ l.pos) (h2 : l.pos ≤ l.len) (hok : emitOK t (l.pos - l.start))
-    (hq : ∀ l', (l'.len = l.len ∧ l.mp ≤ l'.mp ∧ ((l'.mp : Int) = l.mp ∨ (l'.mp : Int) = l.pos) ∧ l'.tagStart = l.tagStart ∧ (l'.bad = l.bad ∧ l'.cnt = l.cnt + 1) ∧ l'.tagBad = l.tagBad ∧ l'.input = l.input) →
+    (hq : ∀ l', (l'.len = l.len ∧ l.mp ≤ l'.mp ∧ ((l'.mp : Int) = l.mp ∨ (l'.mp : Int) = l.pos) ∧ l'.tagStart = l.tagStart ∧ (l'.bad = l.bad ∧ l'.cnt = l.cnt + 1 ∧ l'.tot = l.tot + (l.pos - l.start)) ∧ l'.tagBad = l.tagBad ∧ l'.input = l.input) →
       l'.pos = l.pos → l'.start = l.pos → l'.width = l.width → Q l') :
     Sat (l.emit t) Q := by
   unfold Lexer.emit
@@ -338,7 +345,7 @@ theorem emit_sat {l : Lexer} {t : ItemType} {Q : Lexer → Prop}
   unfold sliceOf
   simp only [Lexer.len] at h2
   rw [if_pos ⟨h0, h1, h2⟩]
-  refine ⟨_, rfl, hq _ ⟨rfl, ?_, ?_, rfl, ⟨?_, by simp [Lexer.cnt]⟩, rfl, rfl⟩ rfl rfl rfl⟩
+  refine ⟨_, rfl, hq _ ⟨rfl, ?_, ?_, rfl, ⟨?_, by simp [Lexer.cnt], by simp [Lexer.tot]; omega⟩, rfl, rfl⟩ rfl rfl rfl⟩
   · simp only [mp_push]; omega
   · simp only [mp_push]; omega
   · apply bad_push
@@ -358,13 +365,13 @@ theorem emit_sat {l : Lexer} {t : ItemType} {Q : Lexer → Prop}
 /-- `l.emit(itemEOF)`: the one emit after which the scan ends -/
 theorem emit_eof_ex {l : Lexer} (h0 : 0 ≤ l.start) (h1 : l.start ≤ l.pos) (h2 : l.pos ≤ l.len) :
     ∃ l', l.emit .tEOF = some l' ∧ (l.mp ≤ l'.mp ∧ ((l'.mp : Int) = l.mp ∨ (l'.mp : Int) = l.pos)) ∧
-      (l'.badInit = l.bad ∧ l'.cnt = l.cnt + 1) ∧ (∃ it, l'.items.back? = some it ∧ it.typ = .tEOF) ∧ l'.input = l.input := by
+      (l'.badInit = l.bad ∧ l'.cnt = l.cnt + 1 ∧ l'.tot = l.tot + (l.pos - l.start)) ∧ (∃ it, l'.items.back? = some it ∧ it.typ = .tEOF) ∧ l'.input = l.input := by
   unfold Lexer.emit
   simp only [if_neg (show ¬ l.pos > l.len by omega)]
   unfold sliceOf
   simp only [Lexer.len] at h2
   rw [if_pos ⟨h0, h1, h2⟩]
-  refine ⟨_, rfl, ⟨?_, ?_⟩, ⟨badInit_push _ _ _ _, by simp [Lexer.cnt]⟩,
+  refine ⟨_, rfl, ⟨?_, ?_⟩, ⟨badInit_push _ _ _ _, by simp [Lexer.cnt], by simp [Lexer.tot]; omega⟩,
     ⟨{ typ := .tEOF, pos := l.pos.toNat, val := (l.input.extract l.start.toNat l.pos.toNat).toList }, by simp, rfl⟩, rfl⟩
   · simp only [mp_push]; omega
   · simp only [mp_push]; omega
@@ -377,7 +384,7 @@ def ScanFacts (l : Lexer) (r : Int) (l' : Lexer) : Prop :=
 
 theorem scanWhile_sat (p : Int → Bool) (hp : p eof = false) (l : Lexer) {Q : Int × Lexer → Prop}
     (h0 : 0 ≤ l.pos) (h1 : l.pos ≤ l.len)
-    (hq : ∀ r l', (l'.len = l.len ∧ l'.mp = l.mp ∧ l'.tagStart = l.tagStart ∧ (l'.bad = l.bad ∧ l'.cnt = l.cnt) ∧ l'.tagBad = l.tagBad ∧ l'.input = l.input) → l'.start = l.start → p r = false → ScanFacts l r l' → Q (r, l')) :
+    (hq : ∀ r l', (l'.len = l.len ∧ l'.mp = l.mp ∧ l'.tagStart = l.tagStart ∧ (l'.bad = l.bad ∧ l'.cnt = l.cnt ∧ l'.tot = l.tot) ∧ l'.tagBad = l.tagBad ∧ l'.input = l.input) → l'.start = l.start → p r = false → ScanFacts l r l' → Q (r, l')) :
     Sat (scanWhile p hp l) Q := by
   induction l using scanWhile.induct p hp with
   | case1 l hn =>
@@ -392,7 +399,7 @@ theorem scanWhile_sat (p : Int → Bool) (hp : p eof = false) (l : Lexer) {Q : I
       simp only [Option.some.injEq, Prod.mk.injEq] at heq
       obtain ⟨rfl, rfl⟩ := heq
       simp only [hr, dite_true]
-      obtain ⟨_, hn', hl, hs, hf⟩ := next_sat (Q := fun x => (x.2.len = l.len ∧ x.2.mp = l.mp ∧ x.2.tagStart = l.tagStart ∧ (x.2.bad = l.bad ∧ x.2.cnt = l.cnt) ∧ x.2.tagBad = l.tagBad ∧ x.2.input = l.input) ∧ x.2.start = l.start ∧ NextFacts l x.1 x.2) h0
+      obtain ⟨_, hn', hl, hs, hf⟩ := next_sat (Q := fun x => (x.2.len = l.len ∧ x.2.mp = l.mp ∧ x.2.tagStart = l.tagStart ∧ (x.2.bad = l.bad ∧ x.2.cnt = l.cnt ∧ x.2.tot = l.tot) ∧ x.2.tagBad = l.tagBad ∧ x.2.input = l.input) ∧ x.2.start = l.start ∧ NextFacts l x.1 x.2) h0
         (fun _ _ a b c => ⟨a, b, c⟩)
       rw [hn] at hn'
       simp only [Option.some.injEq] at hn'
@@ -403,7 +410,7 @@ theorem scanWhile_sat (p : Int → Bool) (hp : p eof = false) (l : Lexer) {Q : I
       unfold NextFacts at hf
       apply ih (by omega) (by omega)
       intro r l' hl' hs' hpr hsf
-      apply hq r l' ⟨hl'.1.trans hl.1, hl'.2.1.trans hl.2.1, hl'.2.2.1.trans hl.2.2.1, ⟨hl'.2.2.2.1.1.trans hl.2.2.2.1.1, hl'.2.2.2.1.2.trans hl.2.2.2.1.2⟩, hl'.2.2.2.2.1.trans hl.2.2.2.2.1, hl'.2.2.2.2.2.trans hl.2.2.2.2.2⟩ (hs'.trans hs) hpr
+      apply hq r l' ⟨hl'.1.trans hl.1, hl'.2.1.trans hl.2.1, hl'.2.2.1.trans hl.2.2.1, ⟨hl'.2.2.2.1.1.trans hl.2.2.2.1.1, hl'.2.2.2.1.2.1.trans hl.2.2.2.1.2.1, hl'.2.2.2.1.2.2.trans hl.2.2.2.1.2.2⟩, hl'.2.2.2.2.1.trans hl.2.2.2.2.1, hl'.2.2.2.2.2.trans hl.2.2.2.2.2⟩ (hs'.trans hs) hpr
       unfold ScanFacts at hsf ⊢
       rw [hl.1] at hsf
       omega
@@ -416,7 +423,7 @@ theorem scanWhile_sat (p : Int → Bool) (hp : p eof = false) (l : Lexer) {Q : I
       simp only [Option.some.injEq, Prod.mk.injEq] at heq
       obtain ⟨rfl, rfl⟩ := heq
       simp only [hr, dite_false]
-      obtain ⟨_, hn', hl, hs, hf⟩ := next_sat (Q := fun x => (x.2.len = l.len ∧ x.2.mp = l.mp ∧ x.2.tagStart = l.tagStart ∧ (x.2.bad = l.bad ∧ x.2.cnt = l.cnt) ∧ x.2.tagBad = l.tagBad ∧ x.2.input = l.input) ∧ x.2.start = l.start ∧ NextFacts l x.1 x.2) h0
+      obtain ⟨_, hn', hl, hs, hf⟩ := next_sat (Q := fun x => (x.2.len = l.len ∧ x.2.mp = l.mp ∧ x.2.tagStart = l.tagStart ∧ (x.2.bad = l.bad ∧ x.2.cnt = l.cnt ∧ x.2.tot = l.tot) ∧ x.2.tagBad = l.tagBad ∧ x.2.input = l.input) ∧ x.2.start = l.start ∧ NextFacts l x.1 x.2) h0
         (fun _ _ a b c => ⟨a, b, c⟩)
       rw [hn] at hn'
       simp only [Option.some.injEq] at hn'
@@ -429,7 +436,7 @@ theorem scanWhile_sat (p : Int → Bool) (hp : p eof = false) (l : Lexer) {Q : I
 
 
 theorem accept_sat {l : Lexer} {valid : List Int} {Q : Bool × Lexer → Prop} (h0 : 0 ≤ l.pos) (h1 : l.pos ≤ l.len)
-    (hq : ∀ b l', (l'.len = l.len ∧ l'.mp = l.mp ∧ l'.tagStart = l.tagStart ∧ (l'.bad = l.bad ∧ l'.cnt = l.cnt) ∧ l'.tagBad = l.tagBad ∧ l'.input = l.input) → l'.start = l.start → l.pos ≤ l'.pos →
+    (hq : ∀ b l', (l'.len = l.len ∧ l'.mp = l.mp ∧ l'.tagStart = l.tagStart ∧ (l'.bad = l.bad ∧ l'.cnt = l.cnt ∧ l'.tot = l.tot) ∧ l'.tagBad = l.tagBad ∧ l'.input = l.input) → l'.start = l.start → l.pos ≤ l'.pos →
       l'.pos ≤ l.len → (b = true → l.pos < l'.pos) → Q (b, l')) :
     Sat (accept l valid) Q := by
   unfold accept
@@ -449,7 +456,7 @@ theorem accept_sat {l : Lexer} {valid : List Int} {Q : Bool × Lexer → Prop} (
       first | omega | (intro h; cases h)
 
 theorem acceptRun_sat {l : Lexer} {valid : List Int} {Q : Bool × Lexer → Prop} (h0 : 0 ≤ l.pos) (h1 : l.pos ≤ l.len)
-    (hq : ∀ b l', (l'.len = l.len ∧ l'.mp = l.mp ∧ l'.tagStart = l.tagStart ∧ (l'.bad = l.bad ∧ l'.cnt = l.cnt) ∧ l'.tagBad = l.tagBad ∧ l'.input = l.input) → l'.start = l.start → l.pos ≤ l'.pos →
+    (hq : ∀ b l', (l'.len = l.len ∧ l'.mp = l.mp ∧ l'.tagStart = l.tagStart ∧ (l'.bad = l.bad ∧ l'.cnt = l.cnt ∧ l'.tot = l.tot) ∧ l'.tagBad = l.tagBad ∧ l'.input = l.input) → l'.start = l.start → l.pos ≤ l'.pos →
       l'.pos ≤ l.len → (b = true → l.pos < l'.pos) → Q (b, l')) :
     Sat (acceptRun l valid) Q := by
   unfold acceptRun
@@ -464,7 +471,7 @@ theorem acceptRun_sat {l : Lexer} {valid : List Int} {Q : Bool × Lexer → Prop
   · simp only [backup_pos]; intro h; have h := of_decide_eq_true h; omega
 
 theorem skipSpace_sat {l : Lexer} {Q : Lexer → Prop} (h0 : 0 ≤ l.pos) (h1 : l.pos ≤ l.len)
-    (hq : ∀ l', (l'.len = l.len ∧ l'.mp = l.mp ∧ l'.tagStart = l.tagStart ∧ (l'.bad = l.bad ∧ l'.cnt = l.cnt) ∧ l'.tagBad = l.tagBad ∧ l'.input = l.input) → l'.start = l'.pos → l.pos ≤ l'.pos →
+    (hq : ∀ l', (l'.len = l.len ∧ l'.mp = l.mp ∧ l'.tagStart = l.tagStart ∧ (l'.bad = l.bad ∧ l'.cnt = l.cnt ∧ l'.tot = l.tot) ∧ l'.tagBad = l.tagBad ∧ l'.input = l.input) → l'.start = l'.pos → l.pos ≤ l'.pos →
       l'.pos ≤ l.len → Q l') :
     Sat (skipSpace l) Q := by
   unfold skipSpace
@@ -478,7 +485,7 @@ theorem skipSpace_sat {l : Lexer} {Q : Lexer → Prop} (h0 : 0 ≤ l.pos) (h1 : 
   · simp only [ignore_pos, backup_pos]; omega
 
 theorem badDoubleClose_sat {l : Lexer} {Q : Bool × Lexer → Prop} (h0 : 0 ≤ l.pos) (h1 : l.pos ≤ l.len)
-    (hq : ∀ b l', (l'.len = l.len ∧ l'.mp = l.mp ∧ l'.tagStart = l.tagStart ∧ (l'.bad = l.bad ∧ l'.cnt = l.cnt) ∧ l'.tagBad = l.tagBad ∧ l'.input = l.input) → l'.start = l.start → l.pos ≤ l'.pos →
+    (hq : ∀ b l', (l'.len = l.len ∧ l'.mp = l.mp ∧ l'.tagStart = l.tagStart ∧ (l'.bad = l.bad ∧ l'.cnt = l.cnt ∧ l'.tot = l.tot) ∧ l'.tagBad = l.tagBad ∧ l'.input = l.input) → l'.start = l.start → l.pos ≤ l'.pos →
       l'.pos ≤ l.len → Q (b, l')) :
     Sat (badDoubleClose l) Q := by
   unfold badDoubleClose
@@ -490,12 +497,12 @@ theorem badDoubleClose_sat {l : Lexer} {Q : Bool × Lexer → Prop} (h0 : 0 ≤ 
     apply Sat.ret
     apply hq _ l' hl hs <;> omega
   · apply Sat.ret
-    apply hq _ l ⟨rfl, rfl, rfl, ⟨rfl, rfl⟩, rfl, rfl⟩ rfl <;> omega
+    apply hq _ l ⟨rfl, rfl, rfl, ⟨rfl, rfl, rfl⟩, rfl, rfl⟩ rfl <;> omega
 
 /-- `maybeEmitText(l, k)` for `0 ≤ k`, on a lexer whose pending text `[start, pos-k)` is inside the input -/
 theorem maybeEmitText_sat {l : Lexer} {k : Int} {Q : Lexer → Prop}
     (hs0 : 0 ≤ l.start) (hk : 0 ≤ k) (hp : l.pos - k ≤ l.len)
-    (hq : ∀ l', (l'.len = l.len ∧ l.mp ≤ l'.mp ∧ ((l'.mp : Int) = l.mp ∨ (l'.mp : Int) = l.pos - k) ∧ l'.tagStart = l.tagStart ∧ (l'.bad = l.bad ∧ l'.cnt + l.start ≤ l.cnt + l'.start) ∧ l'.tagBad = l.tagBad ∧ l'.input = l.input) →
+    (hq : ∀ l', (l'.len = l.len ∧ l.mp ≤ l'.mp ∧ ((l'.mp : Int) = l.mp ∨ (l'.mp : Int) = l.pos - k) ∧ l'.tagStart = l.tagStart ∧ (l'.bad = l.bad ∧ l'.cnt + l.start ≤ l.cnt + l'.start ∧ l'.tot + l.start ≤ l.tot + l'.start) ∧ l'.tagBad = l.tagBad ∧ l'.input = l.input) →
       l'.pos = l.pos → l'.width = l.width →
       ((l'.start = l.start ∧ l.pos - k ≤ l.start) ∨ (l.start < l.pos - k ∧ l'.start = l.pos - k)) → Q l') :
     Sat (maybeEmitText l k) Q := by
@@ -517,20 +524,20 @@ theorem maybeEmitText_sat {l : Lexer} {k : Int} {Q : Lexer → Prop}
           (by simp only [addPos_pos, addPos_len]; simp only [Lexer.len]; omega) (emitOK_safe rfl rfl)
         intro l' hl hp' hs' hw
         simp only [addPos_pos, addPos_len, addPos_width] at hl hp' hs' hw
-        simp only [addPos_mp, addPos_tagStart, addPos_bad, addPos_tagBad, addPos_input, addPos_cnt, addPos_start] at hl
-        apply hq _ (by simp only [addPos_len, addPos_mp, addPos_tagStart, addPos_bad, addPos_tagBad, addPos_input, addPos_cnt, addPos_start]; exact ⟨by omega, by omega, by omega, by omega, by omega, by omega, hl.2.2.2.2.2.2⟩) (by simp only [addPos_pos, hp']; omega) (by simp [hw])
+        simp only [addPos_mp, addPos_tagStart, addPos_bad, addPos_tagBad, addPos_input, addPos_cnt, addPos_tot, addPos_start] at hl
+        apply hq _ (by simp only [addPos_len, addPos_mp, addPos_tagStart, addPos_bad, addPos_tagBad, addPos_input, addPos_cnt, addPos_tot, addPos_start]; exact ⟨by omega, by omega, by omega, by omega, by omega, by omega, hl.2.2.2.2.2.2⟩) (by simp only [addPos_pos, hp']; omega) (by simp [hw])
         right; simp only [addPos_start, hs']; omega
     obtain ⟨a, ha, hqa⟩ := key
     rw [ha]
     exact ⟨_, rfl, hqa⟩
   · apply Sat.ofSome
-    exact hq l ⟨rfl, Nat.le_refl _, Or.inl rfl, rfl, ⟨rfl, Int.le_refl _⟩, rfl, rfl⟩ rfl rfl (Or.inl ⟨rfl, by omega⟩)
+    exact hq l ⟨rfl, Nat.le_refl _, Or.inl rfl, rfl, ⟨rfl, Int.le_refl _, Int.le_refl _⟩, rfl, rfl⟩ rfl rfl (Or.inl ⟨rfl, by omega⟩)
 
 /-! ## The invariant and the progress measure -/
 
 /-- invariant at state boundaries: the pending token `[start, pos)` lies inside the input -/
 def Good (n : Int) (l : Lexer) : Prop :=
-  (l.len = n ∧ (l.mp : Int) ≤ n ∧ 0 ≤ l.tagStart ∧ l.tagStart ≤ n ∧ (l.bad = 0 ∧ l.cnt ≤ 2 * l.start) ∧ l.tagBad = 0) ∧ 0 ≤ l.start ∧ l.start ≤ l.pos ∧ l.pos ≤ n
+  (l.len = n ∧ (l.mp : Int) ≤ n ∧ 0 ≤ l.tagStart ∧ l.tagStart ≤ n ∧ (l.bad = 0 ∧ l.cnt ≤ 2 * l.start ∧ l.tot ≤ l.start) ∧ l.tagBad = 0) ∧ 0 ≤ l.start ∧ l.start ≤ l.pos ∧ l.pos ≤ n
 
 /-- what else holds on entry to a state: the tag states begin with nothing pending
     (`start = pos`), `lexLeftDelim` stands at the `{` that `lexText` saw, and `lexString q` has
@@ -654,15 +661,16 @@ theorem doc_err {input : Array UInt8} {p : Nat}
     state), the last item it sent is EOF or Error -/
 def Post (n : Int) (s : St) (l : Lexer) (res : Option St × Lexer) : Prop :=
   (∀ s', res.1 = some s' → (Good n res.2 ∧ Extra s' res.2) ∧ phi n s' res.2 < phi n s l) ∧
-  (res.1 = none → EndsOK res.2 ∧ ((res.2.mp : Int) ≤ n ∧ res.2.cnt ≤ 2 * n + 1) ∧ res.2.badInit = 0 ∧ ErrAt res.2) ∧
+  (res.1 = none → EndsOK res.2 ∧ ((res.2.mp : Int) ≤ n ∧ res.2.cnt ≤ 2 * n + 1 ∧ res.2.tot ≤ n + 1) ∧ res.2.badInit = 0 ∧ ErrAt res.2) ∧
   res.2.input = l.input
 
-theorem errorf_sat {n : Int} {s : St} {l0 l : Lexer} (h : l.pos ≤ n ∧ (l.mp : Int) ≤ n ∧ (l.bad = 0 ∧ l.cnt ≤ 2 * n)) (hi : l.input = l0.input) :
+theorem errorf_sat {n : Int} {s : St} {l0 l : Lexer} (h : l.pos ≤ n ∧ (l.mp : Int) ≤ n ∧ (l.bad = 0 ∧ l.cnt ≤ 2 * n ∧ l.tot ≤ n)) (hi : l.input = l0.input) :
     Sat (errorf l) (Post n s l0) := by
   refine ⟨_, rfl, fun _ h => absurd h (by simp), fun _ => ⟨⟨{ typ := .tError, pos := l.pos.toNat, val := [] }, by simp, Or.inr rfl⟩, ?_, ?_, ?_⟩, hi⟩
   · refine ⟨by simp only [mp_push']; omega, ?_⟩
     have := h.2.2.2
-    simp only [Lexer.cnt, Array.size_push] at this ⊢
+    simp only [Lexer.cnt, Lexer.tot, Array.size_push, Array.toList_push, List.map_append, List.sum_append, List.map_cons,
+      List.map_nil, List.sum_cons, List.sum_nil, List.length_nil, List.length_cons] at this ⊢
     omega
   · rw [badInit_push']; exact h.2.2.1
   · intro it hb _
@@ -670,13 +678,14 @@ theorem errorf_sat {n : Int} {s : St} {l0 l : Lexer} (h : l.pos ≤ n ∧ (l.mp 
     subst hb
     exact ErrItemOK.nil _ _
 
-theorem errorfAt_sat {n : Int} {s : St} {l0 l : Lexer} {pos : Int} {cls : UInt8} (h : pos ≤ n ∧ (l.mp : Int) ≤ n ∧ (l.bad = 0 ∧ l.cnt ≤ 2 * n))
+theorem errorfAt_sat {n : Int} {s : St} {l0 l : Lexer} {pos : Int} {cls : UInt8} (h : pos ≤ n ∧ (l.mp : Int) ≤ n ∧ (l.bad = 0 ∧ l.cnt ≤ 2 * n ∧ l.tot ≤ n))
     (hi : l.input = l0.input) (he : ErrItemOK l.input ⟨.tError, pos.toNat, [cls]⟩) :
     Sat (errorfAt l pos cls) (Post n s l0) := by
   refine ⟨_, rfl, fun _ h => absurd h (by simp), fun _ => ⟨⟨{ typ := .tError, pos := pos.toNat, val := [cls] }, by simp, Or.inr rfl⟩, ?_, ?_, ?_⟩, hi⟩
   · refine ⟨by simp only [mp_push']; omega, ?_⟩
     have := h.2.2.2
-    simp only [Lexer.cnt, Array.size_push] at this ⊢
+    simp only [Lexer.cnt, Lexer.tot, Array.size_push, Array.toList_push, List.map_append, List.sum_append, List.map_cons,
+      List.map_nil, List.sum_cons, List.sum_nil, List.length_nil, List.length_cons] at this ⊢
     omega
   · rw [badInit_push']; exact h.2.2.1
   · intro it hb _
@@ -703,11 +712,11 @@ macro "lx" : tactic => `(tactic|
   | omega
   | ((try simp only [backup_pos, backup_start, backup_width, backup_input, ignore_pos, ignore_start,
       ignore_width, ignore_input, addPos_pos, addPos_start, addPos_width, addPos_input, backup_items, ignore_items,
-      addPos_items, backup_tagStart, ignore_tagStart, addPos_tagStart, backup_tagBad, ignore_tagBad, addPos_tagBad, backup_cnt, ignore_cnt, addPos_cnt, Lexer.len, Lexer.mp, Lexer.bad, Lexer.cnt, eof] at *) <;>
+      addPos_items, backup_tagStart, ignore_tagStart, addPos_tagStart, backup_tagBad, ignore_tagBad, addPos_tagBad, backup_cnt, ignore_cnt, addPos_cnt, backup_tot, ignore_tot, addPos_tot, Lexer.len, Lexer.mp, Lexer.bad, Lexer.cnt, Lexer.tot, eof] at *) <;>
     omega))
 
 theorem Post.of {n : Int} {s s' : St} {l l' : Lexer}
-    (hn : l'.len = n ∧ (l'.mp : Int) ≤ n ∧ 0 ≤ l'.tagStart ∧ l'.tagStart ≤ n ∧ (l'.bad = 0 ∧ l'.cnt ≤ 2 * l'.start) ∧ l'.tagBad = 0) (h0 : 0 ≤ l'.start)
+    (hn : l'.len = n ∧ (l'.mp : Int) ≤ n ∧ 0 ≤ l'.tagStart ∧ l'.tagStart ≤ n ∧ (l'.bad = 0 ∧ l'.cnt ≤ 2 * l'.start ∧ l'.tot ≤ l'.start) ∧ l'.tagBad = 0) (h0 : 0 ≤ l'.start)
     (h1 : l'.start ≤ l'.pos) (h2 : l'.pos ≤ n) (hle : l.pos ≤ l'.pos)
     (ha : l'.pos = l.pos → l.pos < n → rankA s' < rankA s)
     (hb : l'.pos = l.pos → ¬ l.pos < n → rankB s' < rankB s) (hx : Extra s' l') (hi : l'.input = l.input) :
@@ -721,7 +730,7 @@ theorem Post.of {n : Int} {s s' : St} {l l' : Lexer}
   · exact phi_lt_of_same h (ha h) (hb h)
   · exact phi_lt_of_adv (by simp only at h ⊢; omega) h2
 
-theorem Post.nil {n : Int} {s : St} {l l' : Lexer} (h : EndsOK l') (hm : ((l'.mp : Int) ≤ n ∧ l'.cnt ≤ 2 * n + 1) ∧ l'.badInit = 0)
+theorem Post.nil {n : Int} {s : St} {l l' : Lexer} (h : EndsOK l') (hm : ((l'.mp : Int) ≤ n ∧ l'.cnt ≤ 2 * n + 1 ∧ l'.tot ≤ n + 1) ∧ l'.badInit = 0)
     (he : ErrAt l') (hi : l'.input = l.input) : Post n s l (none, l') :=
   ⟨fun _ h => absurd h (by simp), fun _ => ⟨h, hm.1, hm.2, he⟩, hi⟩
 
@@ -833,7 +842,7 @@ theorem stringsIndex_le (needle : Bytes) : ∀ (hay : Bytes) (i : Nat),
       omega
 
 theorem emitInside_sat {n : Int} {s : St} {l0 l : Lexer} {t : ItemType}
-    (hn : l.len = n ∧ (l.mp : Int) ≤ n ∧ 0 ≤ l.tagStart ∧ l.tagStart ≤ n ∧ (l.bad = 0 ∧ l.cnt ≤ 2 * l.start) ∧ l.tagBad = 0) (h0 : 0 ≤ l.start) (h1 : l.start < l.pos) (h2 : l.pos ≤ n) (hadv : l0.pos < l.pos)
+    (hn : l.len = n ∧ (l.mp : Int) ≤ n ∧ 0 ≤ l.tagStart ∧ l.tagStart ≤ n ∧ (l.bad = 0 ∧ l.cnt ≤ 2 * l.start ∧ l.tot ≤ l.start) ∧ l.tagBad = 0) (h0 : 0 ≤ l.start) (h1 : l.start < l.pos) (h2 : l.pos ≤ n) (hadv : l0.pos < l.pos)
     (hok : emitOK t (l.pos - l.start)) (hi0 : l.input = l0.input) :
     Sat (emitInside l t) (Post n s l0) := by
   unfold emitInside
